@@ -16,12 +16,12 @@ Proof. exact C11_instances. Qed.
 Print Assumptions C11_instances_of_the_hierarchy.
 
 (* the same identifier wherever a name is declared and used *)
-Theorem C11_safename_injective : forall s, unsafename (w_safename s) = s.
+Theorem C11_safename_injective : forall s, unsafename (cl_safename s) = s.
 Proof. exact unsafename_safename. Qed.
 Print Assumptions C11_safename_injective.
 
 Theorem C11_attribute_identifiers : forall m d f a, clafer_write m = Ok d -> In f (get_features m) ->
-  In a (f_attrs (info f)) -> In (w_safename (a_name a)) (map fst (cd_attrdecls d)).
+  In a (f_attrs (info f)) -> In (cl_safename (a_name a)) (map fst (cd_attrdecls d)).
 Proof. exact C11_identifiers. Qed.
 Print Assumptions C11_attribute_identifiers.
 
